@@ -885,7 +885,7 @@ def stream_structures(ctx):
                       '(thorough: also 0, negative, 7, 3*size), inverse operator applied to the result; non-trivial = step != 0 '
                       'and 2+ configurations')
     rng = ctx.sub_rng('structures')
-    n = ctx.n(36, 200)
+    n = ctx.n(30, 200)
     specs = []
     corpus_dir = ctx.scratch.parent.parent / 'corpus' / 'C16'
     for p in sorted(corpus_dir.glob('*.json')):
@@ -992,6 +992,428 @@ def stream_structures(ctx):
     }
 
 
+# =========================================================================== histories
+HIST_CTRL_NAMES = ['shape', 'g', 'K2', 'a b', 'tt', 'c', 'Z-1']
+HIST_SPECS = ['lin', 'sq', 'cu', 'log', 'A', 'b c', 'x-y', '0', 'l']
+
+
+def resolve(node, objs):
+    """a node with references to earlier objects -> the plain structure (harness side)"""
+    t = node['t']
+    if t == 'ref':
+        return objs[node['id']]
+    if t in ('num', 'beta', 'var'):
+        return node
+    if t in ('seg', 'gas'):
+        return expand(node, {'helpers': objs['helpers']})
+    if t == 'cat':
+        return {'t': 'cat', 'name': node['name'], 'ctrl': node['ctrl'] if node.get('ctrl') is not None else node['name'],
+                'm': [[nm, resolve(m, objs)] for nm, m in node['m']]}
+    out = dict(node)
+    for f in ('k', 'util'):
+        if f in node:
+            out[f] = [resolve(x, objs) for x in node[f]]
+    for f in ('key', 'choice'):
+        if f in node:
+            out[f] = resolve(node[f], objs)
+    if node.get('av') is not None:
+        out['av'] = [resolve(x, objs) for x in node['av']]
+    return out
+
+
+def refs_in(node, acc=None):
+    acc = set() if acc is None else acc
+    if isinstance(node, dict):
+        if node.get('t') == 'ref':
+            acc.add(node['id'])
+        for v in node.values():
+            refs_in(v, acc)
+    elif isinstance(node, list):
+        for v in node:
+            refs_in(v, acc)
+    return acc
+
+
+def gen_history(rng, quick, value_mode):
+    """a history: objects (catalogs, formulas) are created at different times, between moves of
+    the controllers through every entry point of the library"""
+    g = Gen(rng, value_mode=value_mode)
+    nctrl = rng.choice([1, 2, 2, 3])
+    controllers = {}
+    for n in rng.sample(HIST_CTRL_NAMES, nctrl):
+        controllers[n] = rng.sample(HIST_SPECS, rng.choice([2, 3, 3, 4]))
+    helpers = []
+    if not value_mode and rng.random() < 0.3:
+        h = g.helper('seg', 'G')
+        helpers.append(h)
+        # further catalogs may be attached later to the helper's controller
+        controllers_h = {'G': [nm for nm, _ in py_seg_catalog(h, h['betas'][0])['m']]}
+    else:
+        controllers_h = {}
+    known = dict(controllers)      # every controller alive: name -> specs
+    known.update(controllers_h)
+    exp = {n: 0 for n in known}    # harness's idea of the indices (planning only)
+    objs = {'helpers': helpers}    # id -> resolved structure
+    steps = []
+    nid = [0]
+    attachable = dict(controllers)
+    attachable.update({n: s for n, s in controllers_h.items() if len(s) >= 2 and len(set(s)) == len(s)})
+
+    def some_refs(k):
+        ids = [i for i in objs if i != 'helpers']
+        return [{'t': 'ref', 'id': i} for i in rng.sample(ids, min(k, len(ids)))]
+
+    def build_catalog(prefer=None):
+        i = nid[0]
+        nid[0] += 1
+        if prefer is not None:
+            ctrl = prefer
+        elif rng.random() < 0.8:
+            ctrl = rng.choice(sorted(attachable))
+        else:
+            ctrl = None
+        if ctrl is None:
+            name = f'd{i}'
+            specs = rng.sample(HIST_SPECS, rng.choice([2, 3]))
+            known[name] = specs
+            exp[name] = 0
+        else:
+            name = f'cat{i}'
+            specs = attachable[ctrl]
+        members = []
+        for s in specs:
+            parts = some_refs(1) if (nid[0] > 1 and rng.random() < 0.2) else []
+            members.append([s, g.combine(parts, depth=1)])
+        node = {'t': 'cat', 'name': name, 'ctrl': ctrl, 'm': members, 'ctor': rng.choice(['list', 'dict'])}
+        objs[i] = resolve(node, objs)
+        steps.append({'do': 'build', 'id': i, 'node': node})
+
+    def build_formula():
+        i = nid[0]
+        nid[0] += 1
+        node = g.combine(some_refs(rng.choice([1, 2, 2, 3])))
+        if node['t'] == 'ref':   # a formula is a new object, not another name of an old one
+            node = {'t': 'bin', 'op': 'Plus', 'k': [node, g.leaf()]}
+        objs[i] = resolve(node, objs)
+        steps.append({'do': 'build', 'id': i, 'node': node})
+
+    def build_helper_object():
+        i = nid[0]
+        nid[0] += 1
+        h = helpers[0]
+        node = {'t': 'seg', 'h': 0, 'b': rng.randrange(len(h['betas']))}
+        objs[i] = resolve(node, objs)
+        steps.append({'do': 'build', 'id': i, 'node': node})
+
+    def move():
+        cands = [i for i in objs if i != 'helpers' and catalogs_of(objs[i])]
+        f = rng.choice(cands)
+        own = controllers_of(objs[f])
+        k = rng.random()
+        if k < 0.25:
+            sels = [[n, rng.choice(s)] for n, s in own]
+            rng.shuffle(sels)
+            steps.append({'do': 'configure', 'f': f, 'sels': sels})
+            for n, s in sels:
+                exp[n] = known[n].index(s)
+        elif k < 0.4:
+            n, s = rng.choice(own)
+            idx = rng.randrange(len(s))
+            steps.append({'do': 'select', 'f': f, 'ctrl': n, 'index': idx})
+            exp[n] = idx
+        elif k < 0.6:
+            n, s = rng.choice(own)
+            kinds = [f'Increase {n}', f'Decrease {n}', 'Increase_several', 'Decrease_several']
+            if len(own) >= 2:
+                n2 = rng.choice([x for x, _ in own if x != n])
+                kinds += [f'Pair_{n}_{n2}_{d}' for d in ('NE', 'NW', 'SE', 'SW')]
+            steps.append({'do': 'op', 'f': f, 'op': rng.choice(kinds), 'step': rng.choice([1, 1, 2, len(s) + 1])})
+            exp[n] = 1  # planning only: "probably moved"
+        elif k < 0.7:
+            steps.append({'do': 'iterate', 'f': f, 'n': rng.choice([1, 2, 3])})
+            for n, _ in own:
+                exp[n] = 1
+        else:
+            n = rng.choice(sorted(known))
+            s = known[n]
+            call = rng.choice(['set_index', 'set_index', 'set_name', 'reset_selection', 'modify', 'modify'])
+            st = {'do': 'ctrl', 'ctrl': n, 'call': call}
+            if call == 'set_index':
+                st['arg'] = rng.randrange(len(s))
+                exp[n] = st['arg']
+            elif call == 'set_name':
+                st['arg'] = rng.choice(s)
+                exp[n] = s.index(st['arg'])
+            elif call == 'modify':
+                st['arg'] = rng.choice([1, 2, -1, len(s), len(s) + 1, -len(s) - 1])
+                st['circular'] = rng.random() < 0.7
+                exp[n] = 1
+            else:
+                exp[n] = 0
+            steps.append(st)
+
+    if helpers:
+        build_helper_object()
+    build_catalog(prefer=rng.choice(sorted(controllers)))
+    nsteps = rng.randint(6, 9) if quick else rng.randint(8, 14)
+    while len(steps) < nsteps:
+        moved = [n for n in attachable if exp.get(n)]
+        k = rng.random()
+        if steps[-1]['do'] != 'build' and moved and k < 0.5:
+            build_catalog(prefer=rng.choice(moved))      # a catalog attached to a controller already moved
+            if rng.random() < 0.7 and len(steps) < nsteps:
+                build_formula()
+        elif k < 0.6:
+            move()
+        elif k < 0.8:
+            build_catalog()
+        else:
+            build_formula()
+    built = []
+    for st in steps:
+        if st['do'] == 'build':
+            built.append(st['id'])
+        st['observe'] = list(built)
+    return {'controllers': controllers, 'helpers': helpers, 'steps': steps, 'value': value_mode}, objs, known
+
+
+def predict(step, state, known, res):
+    """indices after a successful deterministic step (None = not predicted: iteration order and
+    random.choices are arbitrary; the modification of *_several is read from the source elsewhere)"""
+    st = dict(state)
+    do = step['do']
+    if do == 'build':
+        return st
+    if do == 'configure':
+        for n, s in step['sels']:
+            st[n] = known[n].index(s)
+        return st
+    if do == 'select':
+        st[step['ctrl']] = step['index']
+        return st
+    if do == 'ctrl':
+        n = step['ctrl']
+        size = len(known[n])
+        if step['call'] == 'set_index':
+            st[n] = step['arg']
+        elif step['call'] == 'set_name':
+            st[n] = known[n].index(step['arg'])
+        elif step['call'] == 'reset_selection':
+            st[n] = 0
+        else:
+            new = st[n] + step['arg']
+            st[n] = new % size if step['circular'] else min(max(new, 0), size - 1)
+        return st
+    if do == 'op':
+        op, s = step['op'], step['step']
+        if op.startswith('Increase ') or op.startswith('Decrease '):
+            n = op[9:]
+            st[n] = (st[n] + (s if op.startswith('Increase') else -s)) % len(known[n])
+            return st
+        if op.startswith('Pair_'):
+            return None  # names may contain '_': left to the operators stream
+        return None
+    return None
+
+
+def stream_history(ctx):
+    st = ctx.stream('history', 'histories of 6-14 steps over 1-3 shared controllers (+ default controllers): catalogs and formulas '
+                    'are created BETWEEN moves of the controllers (configure_catalogs, select_expression, operators, partial '
+                    'iteration, Controller.set_index / set_name / reset_selection / modify_controller); after every step every '
+                    'object built so far is observed without selecting anything: reported configuration vs controller state, '
+                    'tree vs hand-written formula of the reported configuration and vs model read / subst, selected names, '
+                    'get_children / get_signature views, get_value, own number / set of configurations; one evaluation = one '
+                    'observation; non-trivial = some controller of the object is away from index 0')
+    rng = ctx.sub_rng('history')
+    n = ctx.n(20, 200)
+    plans = []
+    corpus_dir = ctx.scratch.parent.parent / 'corpus' / 'C16'
+    for p in sorted(corpus_dir.glob('*.json')):
+        try:
+            j = json.loads(p.read_text())
+        except Exception:  # noqa  (reported by stream_structures)
+            continue
+        if j.get('kind') == 'history':
+            objs, known = {'helpers': j['history'].get('helpers', [])}, dict(j['history']['controllers'])
+            for s in j['history']['steps']:
+                if s['do'] == 'build':
+                    objs[s['id']] = resolve(s['node'], objs)
+                    for c in catalogs_of(objs[s['id']]):
+                        known.setdefault(c['ctrl'], [nm for nm, _ in c['m']])
+            plans.append((j['history'], objs, known))
+    for i in range(n):
+        plans.append(gen_history(rng, ctx.quick, value_mode=(i % 3 == 2)))
+    B = max(1, (len(plans) + 15) // 16)
+    cases = [p[0] for p in plans]
+    results = []
+    for out in ctx.impl_parallel('c16_catalog.py', [{'mode': 'history', 'cases': cases[i:i + B]}
+                                                    for i in range(0, len(cases), B)]):
+        results += out
+    items, origin = [], []
+    per_hist = []
+    for hi, ((hist, objs, known), res) in enumerate(zip(plans, results)):
+        a = len(items)
+        try:
+            check_history(ctx, st, rng, hi, hist, objs, known, res, items, origin)
+        except (KeyError, TypeError, ValueError, IndexError, AssertionError, AttributeError) as e:
+            del items[a:]
+            del origin[a:]
+            ctx.stream_broken('history', f'implementation output could not be interpreted ({type(e).__name__}: {e}) for '
+                              + json.dumps(hist)[:1500])
+        per_hist.append((a, len(items)))
+    # Coq
+    blocks = [(sum(len(items[k][0]) + len(items[k][1]) for k in range(a, b)), a, b) for a, b in per_hist if b > a]
+    nfiles = max(1, min(len(blocks), common.NCPU if ctx.quick else 4 * common.NCPU))
+    bins = [[0, []] for _ in range(nfiles)]
+    for size, a, b in sorted(blocks, reverse=True):
+        tgt = min(bins, key=lambda x: x[0])
+        tgt[0] += size
+        tgt[1].append((a, b))
+    files, index_of_file = {}, {}
+    for gi, (_, grp) in enumerate(bins):
+        if not grp:
+            continue
+        txt = PRELUDE
+        lst = []
+        for (a, b) in sorted(grp):
+            for k in range(a, b):
+                d, it = items[k]
+                txt += d + f'Definition chk{k} : bool := {it}.\n'
+                lst.append(k)
+        txt += 'Eval vm_compute in ' + coq_list([f'chk{k}' for k in lst]) + '.\n'
+        files[f'hist_{gi}'] = txt
+        index_of_file[f'hist_{gi}'] = lst
+    outs = ctx.coq_eval_many(files, timeout=1500)
+    for k, lst in index_of_file.items():
+        ok, out = outs[k]
+        if not ok:
+            ctx.stream_broken('history', f'model evaluation failed ({k}): ' + out[-1200:])
+            continue
+        bs = parse_bools(out)
+        if len(bs) != len(lst):
+            ctx.stream_broken('history', f'could not parse model output of {k} ({len(bs)} results for {len(lst)} checks)')
+            continue
+        for b, i in zip(bs, lst):
+            if not b:
+                w, o = origin[i]
+                st.disagree(w, 'model differs', o)
+    if st.disagreements:
+        ctx.stream_broken('history', f'{len(st.disagreements)} disagreements, first: '
+                          + json.dumps(st.disagreements[0], default=str)[:2500])
+
+
+def check_history(ctx, st, rng, hi, hist, objs, known, res, items, origin):
+    if 'steps' not in res:
+        ctx.stream_broken('history', f'runner failed: {res}')
+        return
+    if not all_strings_ok(res):
+        ctx.stream_broken('history', 'non-ASCII text returned by the implementation')
+        return
+    state = {n: 0 for n in hist['controllers']}   # every Controller starts at its first specification
+    contains = {}                                 # id -> ids of the objects it was built from (transitively)
+    embedded = set()                              # objects that are part of a later object
+    aliases = {}
+    vm = hist.get('value', False)
+    defined = set()
+    for si, (step, r) in enumerate(zip(hist['steps'], res['steps'])):
+        prefix = {'controllers': hist['controllers'], 'helpers': hist.get('helpers', []), 'steps': hist['steps'][:si + 1]}
+        wit = {'history': prefix}
+        if step['do'] == 'build':
+            sub = set()
+            for j in refs_in(step['node']):
+                sub |= {j} | contains.get(j, set())
+            contains[step['id']] = sub
+            embedded |= sub
+            if step['node'].get('t') == 'ref':   # (corpus / replay input) the same object under a second id
+                aliases.setdefault(step['node']['id'], set()).add(step['id'])
+            for c in catalogs_of(objs[step['id']]):
+                state.setdefault(c['ctrl'], 0)
+        for j, al in aliases.items():
+            if j in embedded:
+                embedded |= al
+        target_embedded = step.get('f') in embedded
+        predicted = None
+        if not r.get('ok'):
+            key = ('C16/history/embedded-subformula/step-refused' if target_embedded and step['do'] in ('configure', 'op', 'iterate', 'select')
+                   else 'C16/history/valid-step-refused')
+            ctx.violation(key, f'step {si} ({step["do"]}) raised on a valid request', wit, 'the step succeeds', r,
+                          how='run witness.history with lib/impl/c16_catalog.py mode history')
+        else:
+            predicted = predict(step, state, known, r)
+        obs_state = r.get('ctrl_state')
+        if not isinstance(obs_state, dict) or not all(isinstance(v, int) and not isinstance(v, bool) for v in obs_state.values()):
+            ctx.violation('C16/history/controller-state-unreadable', 'current_index of the controllers is not an integer', wit, 'integers', r.get('ctrl_state', r.get('ctrl_state_exc')))
+            return
+        obs_state = {n: v for n, v in obs_state.items() if n in known}   # (a helper's controller nobody uses yet is ignored)
+        for n, v in obs_state.items():
+            if not (0 <= v < len(known[n])):
+                ctx.violation('C16/history/index-out-of-range', f'controller {n} has index {v}', wit, 'a legal index', obs_state)
+                return
+        if predicted is not None and any(obs_state.get(n) != v for n, v in predicted.items()):
+            ctx.violation('C16/history/state-not-as-set', f'after step {si} ({step["do"]}) the controllers are not where the step put them',
+                          wit, predicted, obs_state)
+        state = dict(obs_state)
+        # ---- every object, observed without selecting anything
+        U = sorted((n, known[n]) for n in state)
+        u_txt = coq_list([f'({coq_string(n)}, {coq_strs(s)})' for n, s in U])
+        st_txt = coq_list([cz(state[n]) for n, _ in U])
+        for i in step['observe']:
+            o = r['obs'].get(str(i))
+            x = objs[i]
+            own = controllers_of(x)
+            if not own:
+                continue
+            w = {'history': prefix, 'object': i}
+            cfg = {n: s[state[n]] for n, s in own}
+            st.record((common.sha(prefix), i), nontrivial=any(state[n] != 0 for n, _ in own))
+            if o is None or 'obs_exc' in o or 'tree' not in o:
+                ctx.violation('C16/history/object-unreadable', f'object {i} cannot be read after step {si}', w, 'a formula', o)
+                continue
+            reported = dict((a, b) for a, b in o.get('current_sels', []))
+            is_emb = i in embedded
+            extras = set(reported) - {n for n, _ in own}
+            total = math.prod(len(s) for _, s in own)
+            own_ids = sorted(canon_id(list(zip([n for n, _ in own], comb))) for comb in itertools.product(*[s for _, s in own]))
+            # (above maximum_number_catalog_expressions = 100 the library documents that it does not enumerate)
+            ids_ok = o.get('ids') == own_ids or (total > 100 and o.get('ids') is None)
+            if extras or o.get('number') != total or not ids_ok:
+                key = 'C16/history/embedded-subformula/configurations-taken-over' if is_emb else 'C16/history/configurations-not-the-product'
+                ctx.violation(key, f'object {i} (controllers {[n for n, _ in own]}) reports the configurations of another formula',
+                              w, {'number': total, 'ids': own_ids[:12]},
+                              {'current': o.get('current'), 'number': o.get('number'), 'ids': (o.get('ids') or [])[:12], 'exc': o.get('set_exc')})
+            if any(reported.get(n) != cfg[n] for n in cfg):
+                ctx.violation('C16/history/reported-configuration-not-the-state', 'current_configuration() differs from the state of the controllers',
+                              w, cfg, o.get('current_sels', o.get('current_sels_exc')))
+            hand = hand_subst(x, cfg)
+            hand_tree = to_tree(hand)
+            if o['tree'] != hand_tree:
+                ctx.violation('C16/history/not-the-handwritten-formula',
+                              f'after step {si} object {i} reports {canon_id(list(cfg.items()))} but does not read as the formula written by hand for it',
+                              w, hand_tree, o['tree'], how='run witness.history with lib/impl/c16_catalog.py mode history, read object witness.object')
+            for cname, ctrl, sel, index, cur in o.get('selected', []):
+                if sel != cfg.get(ctrl):
+                    ctx.violation('C16/history/catalog-not-synchronised',
+                                  f'catalog {cname} governed by {ctrl} selects {sel!r} while the configuration reported is {cfg.get(ctrl)!r}',
+                                  w, cfg.get(ctrl), o.get('selected'))
+                    break
+            if i not in defined:
+                defs = f'Definition h{hi}o{i} : cexpr := {spec_to_coq(x, {"helpers": []})}.\n'
+                defined.add(i)
+            else:
+                defs = ''
+            own_txt = coq_sels([[n, reported.get(n, '')] for n, _ in own])
+            sel_txt = coq_list([f'({coq_string(ctrl)}, {coq_string(sel)})' for _, ctrl, sel, _, _ in o.get('selected', [])])
+            e = f'h{hi}o{i}'
+            items.append((defs, f'(let U := {u_txt} in let st := {st_txt} in let cfg := current_configuration U st {e} in '
+                          f'wf_ctrls U && forallb (fun c => existsb (ctrl_eqb c) U) (ctrls_of {e}) && '
+                          f'expr_eqb (read U st {e}) {bridge.json_to_coq(o["tree"])} && '
+                          f'expr_eqb (subst cfg {e}) {bridge.json_to_coq(o["tree"])} && '
+                          f'list_eqb (fun a b => String.eqb (fst a) (fst b) && String.eqb (snd a) (snd b)) cfg {own_txt} && '
+                          f'list_eqb2 (fun a b => String.eqb (fst a) (fst b) && opt_str_eqb (snd a) (snd b)) '
+                          f'(selected_names (index_in U st) {e}) {sel_txt})'))
+            origin.append((w, {'state': state, 'observed': {k: o.get(k) for k in ('current', 'tree', 'selected')}}))
+
+
 # =========================================================================== malformed structures
 def malformed_specs(rng, n):
     """structures outside the model's well-formedness: the library must refuse them (BiogemeError)
@@ -1084,6 +1506,7 @@ def run(ctx):
     ctx.build()
     stream_config_gen(ctx)
     stream_structures(ctx)
+    stream_history(ctx)
     stream_malformed(ctx)
 
 
@@ -1105,6 +1528,28 @@ def replay(ctx, path):
         bad = bad or (not r['ok'] and r.get('exc') != 'BiogemeError')
         print(json.dumps({'witness': wit, 'observed': r, 'still_fails': bad}))
         return 1 if bad else 0
+    if 'history' in wit:
+        hist = wit['history']
+        objs, known = {'helpers': hist.get('helpers', [])}, dict(hist.get('controllers', {}))
+        built = []
+        for s in hist['steps']:
+            if s['do'] == 'build':
+                objs[s['id']] = resolve(s['node'], objs)
+                built.append(s['id'])
+                for c in catalogs_of(objs[s['id']]):
+                    known.setdefault(c['ctrl'], [nm for nm, _ in c['m']])
+            s.setdefault('observe', list(built))
+        res = ctx.impl('c16_catalog.py', {'mode': 'history', 'cases': [hist]})[0]
+        ctx._known = []   # a known finding still is a failing input
+        st = ctx.stream('history', 'replay')
+        try:
+            check_history(ctx, st, ctx.sub_rng('replay'), 0, hist, objs, known, res, [], [])
+        except (KeyError, TypeError, ValueError, IndexError, AssertionError, AttributeError) as e:
+            print(json.dumps({'key': key, 'still_fails': True, 'uninterpretable_output': str(e)}))
+            return 1
+        vs = [{'key': v['key'], 'what': v['what'], 'observed': v['observed']} for v in ctx.violations]
+        print(json.dumps({'key': key, 'still_fails': bool(vs), 'violations': vs[:4]}, default=str)[:4000])
+        return 1 if vs else 0
     spec = wit.get('spec')
     if spec is None:
         print('replay: witness without a structure')
